@@ -14,7 +14,7 @@ from fsim import stubmod
 Rec = stubmod.Rec
 StubObj = stubmod.StubObj
 
-KINDS = ('func', 'cls', 'data', 'cmeth', 'part', 'inst')
+KINDS = ('func', 'cls', 'data', 'cmeth', 'part', 'inst', 'uinst')
 
 
 class Recorder:
@@ -112,6 +112,22 @@ def stub_source(spec):
             f'  def __call__({sig_source(params, "self")}):\n'
             f'    return _invoke({name!r}, locals())\n'
             f'{name} = {name}_I()\n')
+  if kind == 'uinst':
+    # unhashable, non-weakrefable callable instance (cannot be a key of a weak
+    # cache); instantiated by the machine AFTER its decoys died (see decoys())
+    return (f'class {name}_U:\n'
+            f'  __slots__ = ()\n'
+            f'  def __eq__(self, other):\n'
+            f'    return self is other\n'
+            f'  def __call__({sig_source(params, "self")}):\n'
+            f'    return _invoke({name!r}, locals())\n'
+            f'class {name}_Decoy:\n'
+            f'  __slots__ = ()\n'
+            f'  def __eq__(self, other):\n'
+            f'    return self is other\n'
+            f'  def __call__(self, q0, q1=1, *, q2=2):\n'
+            f'    return None\n'
+            f'{name} = None\n')
   if kind == 'cmeth':
     return (f'class {name}_K:\n'
             f'  @classmethod\n'
@@ -166,9 +182,23 @@ def install(specs):
     src = stub_source(spec)
     code = compile(src, f'<stub {spec["name"]}>', 'exec')
     exec(code, ns)  # pylint: disable=exec-used
+    if spec['kind'] == 'uinst':
+      import gc
+      import fiddle as fdl
+      # a short history of dead unhashable callables with ANOTHER signature:
+      # their addresses are recycled by the instance created next
+      for _ in range(6):
+        d = ns[spec['name'] + '_Decoy']()
+        try:
+          fdl.Config(d, 1)
+        except Exception:  # pylint: disable=broad-except
+          pass
+        del d
+      gc.collect()
+      ns[spec['name']] = ns[spec['name'] + '_U']()
     obj = ns[spec['name']]
     for n in (spec['name'], spec['name'] + '_I', spec['name'] + '_K',
-              spec['name'] + '_inner'):
+              spec['name'] + '_inner', spec['name'] + '_U'):
       o = ns.get(n)
       if o is not None and hasattr(o, '__module__'):
         try:
